@@ -85,6 +85,19 @@ class Part:
         return self
 
 
+def _limit_worker():
+    """A worker may not take the machine down: an evaluation that builds gigabytes (an error message doubling per
+    operand, say) gets a MemoryError -- an outcome the checks record -- instead of exhausting the host."""
+    try:
+        import resource
+        cap = int(os.environ.get("VERIF_WORKER_AS_GB", "6")) << 30
+        soft, hard = resource.getrlimit(resource.RLIMIT_AS)
+        if hard == resource.RLIM_INFINITY or cap <= hard:
+            resource.setrlimit(resource.RLIMIT_AS, (cap, hard))
+    except Exception:  # noqa  -- a platform without the limit: go on without it
+        pass
+
+
 def _call(args):
     fn, task = args
     try:
@@ -107,7 +120,7 @@ def pmap(fn, tasks, nproc=None, chunksize=1):
         res = [_call((fn, t)) for t in tasks]
     else:
         ctx = multiprocessing.get_context("fork")
-        with ctx.Pool(max(1, nproc)) as pool:  # always a forked child: the parent never runs the library
+        with ctx.Pool(max(1, nproc), initializer=_limit_worker) as pool:  # always a forked child: the parent never runs the library
             res = pool.map(_call, [(fn, t) for t in tasks], chunksize=chunksize)
     out = []
     for status, val in res:
